@@ -1,3 +1,4 @@
+import Secp.Proofs.DecodeRT
 import Secp.Proofs.Equal
 import Secp.Proofs.HistoryLemmas
 import Secp.Proofs.ScalarEnc
